@@ -272,10 +272,13 @@ def classify_crash(prop, rc, err, why=None):
         return ('%s:assert:%s' % (prop, m.group(1)[:80]), (m2.group(0) if m2 else m.group(0))[:300], bool(m2 and '/src/' in m2.group(1)) or in_lib)
     m = re.search(r'WARNING: ThreadSanitizer: ([\w -]+?) \(', err)
     if m:
+        for fn, loc in re.findall(r'#\d+ (\S+) (/\S+?):\d+', err):
+            if '/src/cbor' in loc or loc.startswith(os.path.join(REPO, 'src')):
+                libfn = fn; break
         return ('%s:tsan:%s:%s' % (prop, m.group(1).strip().replace(' ', '-'), libfn or '?'), first_lines(err, 'WARNING: ThreadSanitizer', 30), libfn is not None or in_lib)
     m = re.search(r'PROTECTION-FAULT (.*)', err)
     if m:
-        return ('%s:protection-fault:%s' % (prop, m.group(1).split(' detail=')[0][:100]), m.group(1)[:400], True)
+        return ('%s:protection-fault:%s' % (prop, m.group(1).split(' detail=')[0][:110]), m.group(1)[:400], True)
     if why == 'WATCHDOG' or rc == 99 or rc == -999 or 'TIMEOUT' == err:
         return ('%s:hang' % prop, 'run did not finish within the watchdog', True)
     if rc in (-11, -7) or why in ('SIGSEGV', 'SIGBUS'):
